@@ -159,6 +159,7 @@ func ruleC03(c *Ctx, r *Report) {
 			}
 			bad = append(bad, ic.MultiStore...)
 			bad = append(bad, ic.KeyProblems...)
+			bad = append(bad, ic.Carried...)
 			for _, z := range ic.ZeroPaths {
 				if !p.zeroPathJustified(ic, z) {
 					bad = append(bad, "iteration path without a store (member dropped) under ["+zeroPathString(z)+"]")
